@@ -274,3 +274,46 @@ for pid in ["C01","C02","C03","C04","C05","C06","C07","C08","C10","C11","C12","C
         NA[pid] = _pending
 NA["C19"] = ("requires quadrature and statistical tests over real-valued densities; no state, history or finite "
              "combinatorial space for a TLA+ specification to decide (DESIGN.md §9)")
+
+# ---- stages added after the first version of the table (appended to the level text of the property)
+def more(pid, text):
+    CHECKS[pid]["text"] += " Added later: " + text
+
+more("C01", "parameter sweeps of the parametric mesh generators over every stop count (SweepJudge), the meshers' refusal of solids "
+            "that are true on the outer lattice layer, coarse-to-fine 'satellite' solids under the documented margin, truthful "
+            "geometric region filters, extruded profiles with non-dyadic heights.")
+more("C04", "RectOpsJudge: histories of Add / Remove / AddRectSet / RemoveRectSet over two box sets (each the argument of set "
+            "operations on the other) against the folded set algebra and the bounding box of what remains.")
+more("C05", "axis squeezes / pinches / SmartSqueeze (Squeeze.tla, SqueezeJudge) and every chain of transform atoms around "
+            "solids, SDFs and colliders.")
+more("C06", "extruded and derived fields, single triangles against a brute-force distance, 2-D segment fields (Accel2Judge).")
+more("C07", "ColliderContains with positive and negative margins against exact squared distances; triangle-against-triangle "
+            "on integer corners judged by exact orientation determinants (TriPairJudge); every ray asked again by four "
+            "goroutines at once; joined colliders shared by two parents; 2-D accelerated colliders (Accel2Judge).")
+more("C08", "2-D BVH / grouped / nested colliders and segment fields against the linear scan, grouping as a permutation "
+            "(Accel2Judge); composite render objects against SceneJudge.")
+more("C09", "EditorJudge: the same mesh object queried after being handed to the library's own editors, and the meshes the "
+            "editors hand back; MeshIndexProof: the index protocol for any pool and history length by the TLA+ proof system.")
+more("C10", "25 three-dimensional and 12 two-dimensional operations incl. filtered / negative-rate blur, weighted ARAP "
+            "(also with different schemes), decimation to budgets a component cannot meet (clause simple).")
+more("C11", "FaceOrientations, dual-contouring repair on every subset of a 2x2x2 voxel block, SelfIntersections, the pointer "
+            "mesh's fan cluster search through a verif-tagged export, hierarchies with overlapping sibling bounding boxes.")
+more("C12", "hook traces of the layer scan and of the dual-contouring window validated against McScanTrace / DcWindowTrace; "
+            "block pieces (BlockJudge); coarse-to-fine at ratios up to 64 against the direct fine mesh (C2FJudge); line "
+            "drawings at Scale below 1.")
+more("C13", "renderers and joined colliders shared between goroutines, GOMAXPROCS 1 under a deadline, a panic inside a library "
+            "goroutine attributed by its crash trace; V2FLazyInitProof: the lazy-index protocol for any set of readers by "
+            "the TLA+ proof system.")
+more("C14", "regions placed in the sweep frame with vertices nudged off a common sweep line by 1e-12..1e-9, polygons with "
+            "63..130 vertices in both orders through Triangulate / TriangulateFace / ReadOFF.")
+more("C15", "files beyond the 2^16 capacity hints, float32-exact values, ASCII STL numbers at float32 midpoints, segment CSV "
+            "writer / reader.")
+more("C16", "byte-level faults (cut / replace / insert at evenly spread positions), CSV at the level of fields (CsvFieldJudge), "
+            "integers beyond the signed 64-bit range.")
+more("C17", "ridge regression with integer penalties, BiCGSTAB on zero right-hand sides and after exact convergence, closed "
+            "Bezier arc length, recursive grid searches.")
+more("C18", "StretchMinimizingParameterization (boundary, no flip), ExtendBoundaryUVs, PackMeshUVMaps into rectangles, MapFn "
+            "bounds / area / ToBounds, discs with long sparse rows, p-norm boundaries for p = 1..5.")
+more("C20", "closed-form radiance (uniform emitter, matte furnace, matte floor under a spherical emitter) through the recursive "
+            "and the bidirectional tracer at depth limits 1..60 (RadianceJudge); PixelPoolProof: the pixel pool for any "
+            "number of pixels and workers by the TLA+ proof system.")
